@@ -231,7 +231,27 @@ func findConstTable(p *packages.Package, o *types.Var) (ast.Expr, bool) {
 		return nil, false
 	}
 	if _, ok := unparen(init).(*ast.CompositeLit); !ok {
-		return nil, false
+		// other initialisers are accepted when they contain no call other
+		// than len/cap and conversions (evaluated like any expression)
+		pure := true
+		ast.Inspect(init, func(n ast.Node) bool {
+			if call, ok := n.(*ast.CallExpr); ok {
+				if id, ok := call.Fun.(*ast.Ident); ok && (id.Name == "len" || id.Name == "cap") {
+					return true
+				}
+				if tv, ok := p.TypesInfo.Types[call.Fun]; ok && tv.IsType() {
+					return true
+				}
+				pure = false
+			}
+			if _, ok := n.(*ast.FuncLit); ok {
+				pure = false
+			}
+			return true
+		})
+		if !pure {
+			return nil, false
+		}
 	}
 	assigned := false
 	rootIs := func(e ast.Expr) bool {
@@ -481,6 +501,15 @@ func (x *Exec) run() {
 	x.sig = sig
 	st := newState()
 	x.loopOrd = numberLoops(u.Decl.Body)
+	x.litOrd = map[*ast.FuncLit]int{}
+	nlit := 0
+	ast.Inspect(u.Decl.Body, func(n ast.Node) bool {
+		if l, ok := n.(*ast.FuncLit); ok {
+			nlit++
+			x.litOrd[l] = nlit
+		}
+		return true
+	})
 	bindParam := func(v *types.Var, hint string) {
 		val := x.fresh(st, v.Type(), hint)
 		// slice parameters get their own region (assumed separated; recorded)
